@@ -14,6 +14,7 @@ pub mod c05;
 pub mod c06;
 pub mod c07;
 pub mod c08;
+pub mod c09;
 
 pub const SERVER_IP: IpAddr = IpAddr::V4(Ipv4Addr::new(192, 0, 2, 10));
 
@@ -26,6 +27,7 @@ pub fn all() -> Vec<Box<dyn Prop>> { vec![
         Box::new(c06::C06),
         Box::new(c07::C07),
         Box::new(c08::C08),
+        Box::new(c09::C09),
     ] }
 
 pub fn find(id: &str) -> Option<Box<dyn Prop>> { all().into_iter().find(|p| p.id() == id) }
